@@ -532,23 +532,8 @@ def check_import_closure(report, pm: PyModel):
         "self.extended_lro.request_type": "self.extended_lro", "self.extended_lro.operation_type": "self.extended_lro",
         "self.paged_result_field.message": "self.paged_result_field and self.paged_result_field.message",
     }
-    from .common_rules import stmt_guards, local_env
-    from ..pymodel import _nnf
-    from ..pynorm import subst as _subst
-    found = {}
-    env_rt = local_env(rt.node)
-    for guards, st in stmt_guards(rt.node, env_rt):
-        if isinstance(st, ast.Expr) and isinstance(st.value, ast.Call) and isinstance(st.value.func, ast.Attribute) \
-                and st.value.func.attr in ("append", "extend") and st.value.args:
-            a0 = _subst(_subst(st.value.args[0], env_rt), env_rt)
-            items = list(a0.elts) if st.value.func.attr == "extend" and isinstance(a0, (ast.List, ast.Tuple)) else [a0]
-            for it in items:
-                found[ast.unparse(it)] = frozenset(g for g in guards if g[0] != "for")
-    for expr, cond in want.items():
-        r.instance(f"_ref_types includes {expr}")
-        wantc = frozenset(_nnf(ast.parse(cond, mode="eval").body, True, []))
-        r.check(expr in found and found[expr] == wantc, rt.module.path, rt.node.lineno, f"_ref_types: {expr} under {sorted(found.get(expr, ['<absent>']))}",
-                f"_ref_types must include {expr} whenever `{cond}`; otherwise the client modules reference a type they do not import")
+    from .common_rules import ref_types_inclusions
+    ref_types_inclusions(r, want)
     init = [n for n in ast.walk(rt.node) if isinstance(n, (ast.Assign, ast.AnnAssign)) and isinstance(n.value, ast.List)
             and [ast.unparse(e) for e in n.value.elts] == ["self.input"]]
     r.check(len(init) == 1, rt.module.path, rt.node.lineno, "_ref_types starts with [self.input]", "the request type must always be imported")
